@@ -53,6 +53,11 @@ pub struct Sc {
     /// An even earlier run was killed while writing and left its debris (e.g. a stale temporary file).
     #[serde(default)]
     pub pre_crash: Option<(Step, u64)>,
+    /// The earlier killed run's clock was this many days ahead of the real day (a clock jump that
+    /// was corrected afterwards): its year content runs further than anything a correct run writes.
+    /// It is killed before its first rename, so only its temporary file holds that content.
+    #[serde(default)]
+    pub pre_crash_clock_ahead: i64,
     /// Set by minimisation: explore this single crash point only.
     pub only_state: Option<CrashPoint>,
     pub hash_seed: u64,
@@ -146,13 +151,18 @@ pub fn generate(seed: u64, tier: Tier) -> Sc {
         },
         only_state: None,
         hash_seed: r.next_u64(),
+        pre_crash_clock_ahead: if r.chance(1, 2) { *r.pick(&[3i64, 10, 25, 60]) } else { 0 },
     }
 }
 
 fn run_step(boc: &Arc<BocData>, st: &Step, max_write: usize, hash_seed: u64) -> FxObs {
+    run_step_clock_ahead(boc, st, max_write, hash_seed, 0)
+}
+
+fn run_step_clock_ahead(boc: &Arc<BocData>, st: &Step, max_write: usize, hash_seed: u64, ahead: i64) -> FxObs {
     run_fx_process(FxPlan {
         data: boc.clone(),
-        today: pd(&st.today),
+        today: pd(&st.today) + Duration::days(ahead),
         published_today: st.published_today,
         force: st.force,
         cache: CacheKind::Csv,
@@ -163,7 +173,7 @@ fn run_step(boc: &Arc<BocData>, st: &Step, max_write: usize, hash_seed: u64) -> 
         app_console: false,
         app_legacy_date: false,
         net_faults: vec![],
-        server_today: None,
+        server_today: if ahead != 0 { Some(pd(&st.today)) } else { None },
         fs_faults: FsFaultSpec::default(),
         knobs: Knobs { max_write, max_read: usize::MAX },
         hash_seed,
@@ -429,12 +439,25 @@ impl Engine for C14 {
         if let Some((step, pseed)) = &sc.pre_crash {
             // run it to completion on a scratch copy, then keep only a prefix of what it did
             let before = with_world(|w| w.fs.disk.clone());
-            let o = run_step(&boc, step, usize::MAX, sc.hash_seed ^ 3);
+            let ahead = sc.pre_crash_clock_ahead.max(0);
+            let o = run_step_clock_ahead(&boc, step, usize::MAX, sc.hash_seed ^ 3, ahead);
             st.bump("sim.processes");
             let jp = o.proc.journal;
             let mut rp = Rng::new(*pseed);
             let wr: Vec<usize> = jp.iter().enumerate().filter_map(|(i, o)| if matches!(o, Op::Write { .. }) { Some(i) } else { None }).collect();
-            let cp = if wr.is_empty() || rp.chance(1, 4) {
+            let first_rename = jp.iter().position(|o| matches!(o, Op::Rename { .. } | Op::Link { .. }));
+            let cp = if ahead > 0 {
+                // Only the temporary file may ever hold what the wrong clock produced: the run dies
+                // before its first name change (mostly right before it, the temporary file complete).
+                st.bump("fault.clock_set_ahead_in_an_earlier_killed_run");
+                match first_rename {
+                    Some(fr) if rp.chance(2, 3) => CrashPoint::Prefix { k: fr, cut: 0 },
+                    Some(fr) => CrashPoint::Prefix { k: rp.range(0, fr as i64) as usize, cut: 0 },
+                    // A write procedure without a name change has no point before which its output
+                    // is private: nothing of the wrong-clock run is kept.
+                    None => CrashPoint::Prefix { k: 0, cut: 0 },
+                }
+            } else if wr.is_empty() || rp.chance(1, 4) {
                 CrashPoint::Prefix { k: rp.range(0, jp.len() as i64) as usize, cut: 0 }
             } else {
                 let k = *rp.pick(&wr);
